@@ -21,8 +21,8 @@ def check(pid):
     return deco
 
 
-def mc_cfg(maxn, palette, invs=("AllHold", "FixedPoint"), any_labelling=False):
-    return (f"SPECIFICATION MSpec\nCONSTANTS RLimit = 99 BFLimit = 6 MaxN = {maxn} AnyLabelling = {'TRUE' if any_labelling else 'FALSE'}\n  Palette <- {palette}\n"
+def mc_cfg(maxn, palette, invs=("AllHold", "FixedPoint"), any_labelling=False, adapter="apply"):
+    return (f"SPECIFICATION MSpec\nCONSTANTS RLimit = 99 BFLimit = 6 MaxN = {maxn} AnyLabelling = {'TRUE' if any_labelling else 'FALSE'} Adapter = \"{adapter}\"\n  Palette <- {palette}\n"
             + "".join(f"INVARIANT {i}\n" for i in invs) + "CHECK_DEADLOCK FALSE\n")
 
 
@@ -79,12 +79,19 @@ RULE = ("cases = recorded sessions of the real library (one molecule, several de
 
 
 # ---------------------------------------------------------------------------------------------- C01
+def control_zip_adapter(out):
+    out.design("MC_Tucan", mc_cfg(3, "PaletteHC", adapter="zip_inverse"), must_fail="AllHold", label="control: labelling read in the inverse convention (pinned tree + igraph 1.0)")
+
+
 @check("C01")
 def c01(out, tier, rng):
     design_pipeline(out, tier)
+    if tier == "thorough":
+        control_zip_adapter(out)
     ss = enumerated_sessions(out, tier, rng, parse_back=False)
     ss += pool_sessions(rng, tier, k=3, feedback=True, parse_back=True)
     ss += molfile_order_sessions(rng, tier)
+    ss.append(pipeline_session("solvent-box", gen.solvent_box(rng), rng, k=1 if tier == "quick" else 5, parse_back=False, unordered=True))
     count_sessions(out, ss, "c01")
     validate_sessions(out, ss, "C01:")
     out.extra["rule"] = RULE
@@ -92,11 +99,11 @@ def c01(out, tier, rng):
                         "bliss (igraph) is an assumed environment: only the use of its result is checked"]
 
 
-def molfile_order_sessions(rng, tier):
+def molfile_order_sessions(rng, tier, parse_back=False, n_quick=40):
     """the same molecule written as molfiles whose atom lines, indices, bond lines and bond directions are shuffled"""
     import textgen
     ss = []
-    for i in range(40 if tier == "quick" else 600):
+    for i in range(n_quick if tier == "quick" else 600):
         M = textgen.abstract_molecule(rng, 10 if i % 3 else 14, coords=["0", "1.5", "-2.25", "3.125"])
         if i % 3 == 0:
             for a in M["atoms"]:            # many radical centres on different elements
@@ -120,7 +127,13 @@ def molfile_order_sessions(rng, tier):
             if x:
                 c = S.canon(x)
                 if c:
-                    S.ser(c)
+                    s = S.ser(c)
+                    if s is not None and parse_back:
+                        pp = S.parse(s, of=c)
+                        if pp:
+                            c2 = S.canon(pp)
+                            if c2:
+                                S.ser(c2)
         inv0 = {perms[0][k]: k for k in range(nat)}
         for j in (1, 2):
             if ids[0] and ids[j]:
@@ -318,6 +331,7 @@ def c03(out, tier, rng):
     ss = enumerated_sessions(out, tier, rng, parse_back=True)
     ss += pool_sessions(rng, tier, k=2, parse_back="all", feedback=True)
     ss += mutate_sessions(rng, tier, n=15)
+    ss += molfile_order_sessions(rng, tier, parse_back=True, n_quick=25)
     count_sessions(out, ss, "c03")
     validate_sessions(out, ss, "C03:")
     out.extra["rule"] = RULE
@@ -385,9 +399,16 @@ def stale_partition_sessions(rng, tier, n=25):
 @check("C04")
 def c04(out, tier, rng):
     design_pipeline(out, tier)
+    if tier == "thorough":
+        control_zip_adapter(out)
     ss = enumerated_sessions(out, tier, rng, parse_back=False)
     ss += pool_sessions(rng, tier, k=3, feedback=True, parse_back=False, nonidentity=True)
     ss += stale_partition_sessions(rng, tier)
+    S = Session("solvent-box")
+    o = S.input(gen.solvent_box(rng))
+    for x in [o] + [S.derive(o, reorder_nodes(relabel(S.objs[o], p, rng), rng), p) for p in [gen.random_perm(rng, S.objs[o].number_of_nodes()) for _ in range(2 if tier == "quick" else 6)]]:
+        S.canon(x, spy=False)
+    ss.append(S)
     # refinement that needs more than a hundred rounds: long unsymmetrical chains
     for nheavy in ((270,) if tier == "quick" else (270, 520, 900)):
         g = gen.mol([("C", 0, 0, 0)] * nheavy + [("Cl", 0, 0, 0)], [(i, i + 1, 1) for i in range(nheavy)])
@@ -459,6 +480,19 @@ def reader_fed_sessions(rng, tier):
         except Exception:
             continue            # a rejected file emits nothing: outside C05
         S = Session("rd-" + name, note=text[:400])
+        if "bad" in record.project(g):
+            # the reader returned something that is not a molecule in the model's terms (e.g. a real-valued mass): whatever the
+            # pipeline emits for it is judged as a string
+            try:
+                from tucan.canonicalization import canonicalize_molecule
+                from tucan.serialization import serialize_molecule
+                s = serialize_molecule(canonicalize_molecule(g))
+                if isinstance(s, str):
+                    S.ev.append({"op": "emitted", "s": s})
+            except Exception:
+                pass
+            ss.append(S)
+            continue
         o = S.input(g)
         c = S.canon(o)
         if c:
@@ -475,6 +509,7 @@ def c12(out, tier, rng):
     ss += pool_sessions(rng, tier, k=2, feedback=True, repeat=True, nonidentity=True, parse_back=False, n_random=40)
     ss += mutate_sessions(rng, tier, n=20)
     ss += history_sessions(rng, tier)
+    ss += stale_code_sessions(rng, tier)
     scr, r = drivers.script_sessions(rng, tier)          # call histories generated by TLC's simulator from spec/Calls.tla
     out.states += r.distinct; out.transitions += r.generated
     out.extra["tlc_generated_call_scripts"] = len(scr)
@@ -492,6 +527,26 @@ def c12(out, tier, rng):
                                        "replay": out.write_replay(rec, cl)})
     out.extra["rule"] = RULE
     out.assumptions += ["atoms are traced through unique tags attached by the driver; the renaming is read off the tags and applied by the specification"]
+
+
+def stale_code_sessions(rng, tier, n=15):
+    """the user edits an isotope / radical attribute of a graph without refreshing the derived 'invariant_code' entry and then calls the
+    library: whatever the library makes of the inconsistent object, it must not write into it"""
+    ss = []
+    for i in range(n if tier == "quick" else n * 6):
+        g = gen.random_molecule(rng, 7)
+        S = Session(f"stalecode{i}")
+        o = S.input(g)
+        live = S.objs[o]
+        a = rng.choice(list(live.nodes))
+        live.nodes[a][rng.choice(["mass", "rad"])] = rng.choice([1, 2, 13])
+        S.ev.append({"op": "mutate", "obj": o, "g": record.project(live), "newcls": 900000 + o})
+        c = S.canon(o)
+        if c:
+            S.ser(c)
+            S.canon(o)
+        ss.append(S)
+    return ss
 
 
 def history_sessions(rng, tier, n=30):
